@@ -130,6 +130,8 @@ structure Env where
   verdict  : Verdict := .valid            -- outcome of `forward_broadcast_payload`
   auth     : AuthOutcome := .failure      -- outcome of `authenticate`
   directOk : Option Bool := some true     -- `send_private_payload`: some valid? / none = call failed
+  handoverOk : Bool := true               -- the modulator acknowledges the hand-over announcement (MEMBER_JOINED owner=true) that
+                                          -- follows the removal of an owner; `evOk` is the notification of the removal itself
   down     : Bool := false                -- the modulator link is lost during this step: every call fails, `operations()` and
                                           -- `protocol_name()` included (only the flags cached at start-up, `authRequired`, survive)
 deriving Repr
@@ -255,6 +257,9 @@ def paginateAcl (l : List Str) (page size : Option Nat) : List Str Ã— Option (Na
     asked which operations it offers -/
 def notifyFails (s : Srv) (env : Env) : Bool := (s.cfg.fwdEvent && !env.evOk) || (s.cfg.hasMod && env.down)
 
+/-- the announcement of the new owner fails: as any notification, or because the modulator refuses just that event -/
+def handoverFails (s : Srv) (env : Env) : Bool := notifyFails s env || (s.cfg.fwdEvent && !env.handoverOk)
+
 /-! ## disconnect clean-up -/
 
 /-- channel `c` after `remove_member(u)`: owner cleared if it was `u`, reader cache rebuilt -/
@@ -276,7 +281,7 @@ def removeMember (s : Srv) (c : Chan) (u : Str) (env : Env) : Srv Ã— List Emit Ã
   if (withoutMember s.cfg.domain c u).members.isEmpty then
     ({ s with index := indexDel s u c.handler, chans := delChan s.chans c.handler }, [], true)
   else if c.owner = some u then
-    if notifyFails s env then
+    if handoverFails s env then
       ({ s with index := indexDel s u c.handler,
                 chans := putChan s.chans { withoutMember s.cfg.domain c u with owner := some (pickOwner env (withoutMember s.cfg.domain c u) u) } },
         [], false)
